@@ -87,12 +87,58 @@ Qed.
 
 Lemma name_ok_split name : name_ok name = true ->
   exists c r, name = c :: r /\ (is_alpha c || (c =? 95)) = true /\
-              ((to_lower c =? 116) || (to_lower c =? 102)) = false /\
+              forallb ident_char name = true /\
               forallb (fun x => is_alnum x || (x =? 95)) r = true.
 Proof.
   unfold name_ok. destruct name as [|c r]; [discriminate|]. intros H.
-  apply andb_true_iff in H as [H Hr]. apply andb_true_iff in H as [Hc Hk].
-  exists c, r. repeat split; try assumption. now apply negb_true_iff in Hk.
+  apply andb_true_iff in H as [H _]. apply andb_true_iff in H as [H _]. apply andb_true_iff in H as [Hc Hr].
+  exists c, r. repeat split; try assumption.
+  cbn [forallb]. apply andb_true_iff. split; [|exact Hr]. unfold ident_char. cls.
+Qed.
+
+Lemma text_eqb_eq' a : forall b, text_eqb a b = true -> a = b.
+Proof.
+  induction a as [|x a IH]; intros [|y b] H; try discriminate; [reflexivity|].
+  cbn in H. apply andb_true_iff in H as [H1 H2]. apply N.eqb_eq in H1. f_equal; auto.
+Qed.
+Lemma text_eqb_refl' a : text_eqb a a = true.
+Proof. induction a as [|x a IH]; cbn; [reflexivity|]. now rewrite N.eqb_refl. Qed.
+
+Lemma name_not_keyword name : name_ok name = true ->
+  map to_lower name <> t_true_tag /\ map to_lower name <> t_false_tag.
+Proof.
+  unfold name_ok. destruct name as [|c r]; [discriminate|]. intros H.
+  apply andb_true_iff in H as [H Hf]. apply andb_true_iff in H as [_ Ht].
+  apply negb_true_iff in Ht, Hf. split; intros E; rewrite E in *; cbn in *; discriminate.
+Qed.
+
+(* one step of the word-bounded tag *)
+Lemma tag_no_case_word_cons x t c s : (to_lower c =? x) = true ->
+  tag_no_case_word (x :: t) (c :: s) =
+  match tag_no_case_word t s with Some (m, r) => Some (c :: m, r) | None => None end.
+Proof.
+  intros H. unfold tag_no_case_word. cbn [tag_no_case]. rewrite H.
+  destruct (tag_no_case t s) as [[m r]|]; [|reflexivity].
+  destruct r as [|d r']; [reflexivity|]. destruct (is_alnum d || (d =? 95)); reflexivity.
+Qed.
+
+(* a keyword made of letters does not match an identifier that is not that keyword *)
+Lemma tag_no_case_word_none : forall t name R,
+  forallb is_alpha t = true -> forallb ident_char name = true -> tok_end R = true ->
+  map to_lower name <> t -> tag_no_case_word t (name ++ R) = None.
+Proof.
+  induction t as [|x t IH]; intros name R Ht Hn HR Hne.
+  - destruct name as [|c name']; [contradiction|]. cbn [forallb] in Hn. apply andb_true_iff in Hn as [Hc _].
+    unfold tag_no_case_word. cbn [tag_no_case app]. unfold ident_char in Hc. rewrite Hc. reflexivity.
+  - cbn [forallb] in Ht. apply andb_true_iff in Ht as [Hx Ht].
+    destruct name as [|c name']; cbn [app].
+    + destruct R as [|d R']; [reflexivity|]. unfold tag_no_case_word. cbn [tag_no_case]. unfold tok_end in HR.
+      destruct (to_lower d =? x) eqn:E; [exfalso; unfold to_lower in E; destruct ((65 <=? d) && (d <=? 90)) eqn:Eu; unfold is_alpha in *; lia | reflexivity].
+    + cbn [forallb] in Hn. apply andb_true_iff in Hn as [Hc Hn].
+      destruct (to_lower c =? x) eqn:E.
+      * rewrite tag_no_case_word_cons by exact E. rewrite IH; try assumption; [reflexivity|].
+        intros Eq. apply Hne. cbn [map]. apply N.eqb_eq in E. now rewrite E, Eq.
+      * unfold tag_no_case_word. cbn [tag_no_case]. rewrite E. reflexivity.
 Qed.
 
 Lemma identifier_name_ok name R : name_ok name = true -> tok_end R = true ->
@@ -104,14 +150,16 @@ Proof.
   apply tok_end_class; [|assumption]. intros x Hx. cls.
 Qed.
 
-Lemma number_none_on_name name R : name_ok name = true -> number (name ++ R) = None.
+Lemma number_none_on_name name R : name_ok name = true -> tok_end R = true -> number (name ++ R) = None.
 Proof.
-  intros Hn. destruct (name_ok_split _ Hn) as (c & r & -> & Hc & Hk & _).
-  unfold number. cbn [app]. rewrite (ws_stop c) by cls.
-  cbn [char_]. replace (c =? 36) with false by cls. replace (c =? 37) with false by cls.
-  unfold many1. cbn [take_while]. replace (is_digit c) with false by cls.
-  unfold t_true_tag, t_false_tag. cbn [tag_no_case].
-  apply orb_false_iff in Hk as [Ht Hf]. rewrite Ht, Hf. reflexivity.
+  intros Hn HR. destruct (name_not_keyword _ Hn) as [Nt Nf].
+  destruct (name_ok_split _ Hn) as (c & r & Heq & Hc & Hid & _).
+  unfold number. 
+  assert (Hws : ws (name ++ R) = name ++ R) by (rewrite Heq; cbn [app]; apply ws_stop; cls).
+  rewrite Hws.
+  rewrite !tag_no_case_word_none by (assumption || reflexivity).
+  rewrite Heq. cbn [app char_]. replace (c =? 36) with false by cls. replace (c =? 37) with false by cls.
+  unfold many1. cbn [take_while]. replace (is_digit c) with false by cls. reflexivity.
 Qed.
 
 Section WithP.
